@@ -16,7 +16,8 @@ RULE = ("state = a stack of 1-3 config files chained by extend_config (written f
 ASSUMPTIONS = ["the precedence model is the one stated by the property (ref model in this file, 40 lines)", "values are unique per (file, scope) so the chosen source is identifiable"]
 MAXTASKS = 6
 SCOPES = [(), ("a",), ("a", "b")]
-MODULES = [(), ("a",), ("a", "b"), ("a", "b", "c"), ("x",)]
+# queried modules: inside/outside the overrides, and names that merely share a string prefix with an override name
+MODULES = [(), ("a",), ("a", "b"), ("a", "b", "c"), ("x",), ("ab",), ("a", "bc"), ("aa", "b")]
 
 
 def _toml_value(v):
